@@ -95,6 +95,115 @@ func parseFloatCall(v ssa.Value) *ssa.Call {
 	return c
 }
 
+// textSliceOf: v is a slice of a string that is the scanner's text — a slice
+// expression over a string loaded from a field (or over a string parameter, when
+// inHelper), or the result of a helper all of whose normal returns are such a
+// slice of a string parameter to which the caller hands the text.
+func textSliceOf(v ssa.Value, inHelper bool, depth int) bool {
+	v = strip(v)
+	switch x := v.(type) {
+	case *ssa.Slice:
+		return textOrigin(x.X, inHelper)
+	case *ssa.Phi:
+		for _, e := range x.Edges {
+			if !textSliceOf(e, inHelper, depth) {
+				return false
+			}
+		}
+		return len(x.Edges) > 0
+	case *ssa.Call:
+		f := x.Call.StaticCallee()
+		if f == nil || len(f.Blocks) == 0 || depth <= 0 {
+			return false
+		}
+		anyText := false
+		for _, a := range x.Call.Args {
+			if textOrigin(a, inHelper) {
+				anyText = true
+			}
+		}
+		if !anyText {
+			return false
+		}
+		n := 0
+		for _, b := range f.Blocks {
+			ret, ok := normalReturn(b)
+			if !ok {
+				continue
+			}
+			if len(ret.Results) != 1 || !textSliceOf(retVal(ret, 0), true, depth-1) {
+				return false
+			}
+			n++
+		}
+		return n > 0
+	}
+	return false
+}
+
+// textOrigin: a string loaded from a struct field, or (inside a helper) a
+// string parameter.
+func textOrigin(v ssa.Value, inHelper bool) bool {
+	v = strip(v)
+	if b, ok := v.Type().Underlying().(*types.Basic); !ok || b.Info()&types.IsString == 0 {
+		return false
+	}
+	switch x := v.(type) {
+	case *ssa.UnOp:
+		_, ok := x.X.(*ssa.FieldAddr)
+		return ok && x.Op == token.MUL
+	case *ssa.Parameter:
+		return inHelper
+	}
+	return false
+}
+
+// numLiteralValue judges a float64 that is to become a number literal's value:
+// "" when on every way it is element 0 of strconv.ParseFloat applied to a slice
+// of the text (directly, or as the result of a function whose normal returns
+// all are), otherwise what it is instead.
+func numLiteralValue(v ssa.Value, depth int, seen map[ssa.Value]bool) string {
+	if seen[v] {
+		return ""
+	}
+	seen[v] = true
+	if ph, ok := v.(*ssa.Phi); ok {
+		for _, e := range ph.Edges {
+			if bad := numLiteralValue(e, depth, seen); bad != "" {
+				return bad
+			}
+		}
+		return ""
+	}
+	if c, ok := strip(v).(*ssa.Call); ok {
+		f := c.Call.StaticCallee()
+		if f != nil && len(f.Blocks) > 0 && depth > 0 && f.Signature.Results().Len() == 1 {
+			n := 0
+			for _, b := range f.Blocks {
+				ret, ok := normalReturn(b)
+				if !ok {
+					continue
+				}
+				n++
+				if bad := numLiteralValue(retVal(ret, 0), depth-1, seen); bad != "" {
+					return bad
+				}
+			}
+			if n > 0 {
+				return ""
+			}
+		}
+	}
+	pc := parseFloatCall(v)
+	if pc == nil {
+		return fmt.Sprintf("is %s, which is not the result of strconv.ParseFloat", describeVal(v))
+	}
+	if !textSliceOf(pc.Call.Args[0], false, 2) {
+		return "ParseFloat is not applied to a slice of the expression text"
+	}
+	return ""
+}
+
 func ruleNumLiteral(w *World, r *Report) {
 	r.rule("C08-LIT", "every scanner method returning float64 returns, on each normal return, element 0 of a strconv.ParseFloat call whose argument is a slice of the scanner's text — never a value computed from it (one correctly rounded conversion per literal); the scanner's float64 field is only ever assigned such a method's result; and the parser hands that field, unmodified, to the constant-operand constructor; the scanner followed by constant propagation from a digit and from '.', with positions counted from the start of the token: the slice converted is exactly the characters consumed for the token")
 	g, err := w.grammar()
@@ -116,10 +225,6 @@ func ruleNumLiteral(w *World, r *Report) {
 		}
 		numFns = append(numFns, fn)
 	}
-	if len(numFns) == 0 {
-		r.bad("ANCHOR", "C08-LIT", "", "no scanner method returning float64")
-		return
-	}
 	isNum := map[*ssa.Function]bool{}
 	for _, fn := range numFns {
 		isNum[fn] = true
@@ -133,40 +238,11 @@ func ruleNumLiteral(w *World, r *Report) {
 			}
 			key := fmt.Sprintf("%s:return", fn.Name())
 			v := retVal(ret, 0)
-			var leaves []ssa.Value
-			seen := map[ssa.Value]bool{}
-			var walk func(v ssa.Value)
-			walk = func(v ssa.Value) {
-				if seen[v] {
-					return
-				}
-				seen[v] = true
-				if ph, ok := v.(*ssa.Phi); ok {
-					for _, e := range ph.Edges {
-						walk(e)
-					}
-					return
-				}
-				leaves = append(leaves, v)
-			}
-			walk(v)
 			bad := ""
-			for _, l := range leaves {
-				if c, ok := strip(l).(*ssa.Call); ok && isNum[c.Call.StaticCallee()] && c.Call.StaticCallee() != fn {
-					continue // the result of another scanner method of the same kind, judged by the same rule
-				}
-				pc := parseFloatCall(l)
-				if pc == nil {
-					bad = fmt.Sprintf("returns %s, which is not the result of strconv.ParseFloat", describeVal(l))
-					continue
-				}
-				if sl, ok := strip(pc.Call.Args[0]).(*ssa.Slice); !ok {
-					bad = "ParseFloat is not applied to a slice of the expression text"
-				} else if ld, ok := strip(sl.X).(*ssa.UnOp); !ok {
-					bad = "ParseFloat is not applied to a slice of the expression text"
-				} else if _, ok := ld.X.(*ssa.FieldAddr); !ok {
-					bad = "ParseFloat is not applied to a slice of the expression text"
-				}
+			if c, ok := strip(v).(*ssa.Call); ok && isNum[c.Call.StaticCallee()] && c.Call.StaticCallee() != fn {
+				// the result of another scanner method of the same kind, judged by the same rule
+			} else if b := numLiteralValue(v, 2, map[ssa.Value]bool{}); b != "" {
+				bad = "returns what " + b
 			}
 			if bad != "" {
 				r.bad("C08-LIT", key, w.instrPos(ret), fmt.Sprintf("%s %s: the literal's value is assembled from parts and rounded more than once (1.14 becomes 1.1400000000000001)", fn.Name(), bad))
@@ -237,8 +313,10 @@ func ruleNumLiteral(w *World, r *Report) {
 				key := fmt.Sprintf("%s:store-%s", fn.Name(), numField.Name())
 				if c, ok := x.Val.(*ssa.Call); ok && c.Call.StaticCallee() != nil && isNum[c.Call.StaticCallee()] {
 					r.ok("C08-LIT", key, w.instrPos(x), "assigned the scanned number as is")
+				} else if b := numLiteralValue(x.Val, 2, map[ssa.Value]bool{}); b == "" {
+					r.ok("C08-LIT", key, w.instrPos(x), "assigned the ParseFloat result of a slice of the text as is")
 				} else {
-					r.bad("C08-LIT", key, w.instrPos(x), "the scanner's number field is assigned something other than the direct result of a number-scanning method")
+					r.bad("C08-LIT", key, w.instrPos(x), "the scanner's number field is assigned something other than the direct result of a number-scanning method: the value "+b)
 				}
 			case *ssa.UnOp:
 				if x.Op != token.MUL {
